@@ -252,6 +252,9 @@ def equal_reader_rules(ctx, rule):
 
 
 def finish_c03(ctx, facts):
+    # ---- C03.6 the framing decision sees every header the client sent
+    import rules_C02
+    rules_C02.header_loop_rules(ctx, "C03.6")
     # ---- C03.4 the fused reader itself
     f = FRM.fmodel(facts).nr0
     insts = [i for i in facts.instances_of(f.id) if not i["generic"] and "SequentialReader<" in i["name"]]
